@@ -75,6 +75,7 @@ ReplyOf(r) == <<r.rtag, r.rv, SeqRange(r.rkids)>>
    of the scenario so far, including this one, was explained by the specification *)
 Violations(x, okNow) ==
   (IF SingleCopy(x) THEN {} ELSE {"SingleCopy"}) \cup
+  (IF JoinLockHeld(x) THEN {} ELSE {"JoinLockHeld"}) \cup
   (IF ~okNow \/ NoLoss(x) THEN {} ELSE {"NoLoss"}) \cup
   (IF ~okNow \/ NoGhost(x) THEN {} ELSE {"NoGhost"}) \cup
   (IF ~okNow \/ OneMembershipOp(x) THEN {} ELSE {"OneMembershipOp"}) \cup
